@@ -96,7 +96,7 @@ pub fn %s() {
     }
 }
 """ % (name, B, concrete_bytes(mask_patches, B), mod, "\n            ".join(fin)))
-                hs.append({"name": "c02::%s" % name, "group": "msm", "tier": "quick" if (mod in ("msg1074", "msg1077", "msg1127", "msg1087") and sname in ("empty", "2x2", "9x8", "zero")) else "thorough",
+                hs.append({"name": "c02::%s" % name, "group": "msm", "tier": "quick" if (mod in ("msg1074", "msg1077", "msg1127", "msg1087") and sname in ("empty", "9x8")) else "thorough",
                            "bounds": "%s: every %d-byte payload whose satellite, signal and cell masks are the concrete shape %s (%s), all row data symbolic" % (mod, B, sname, cm if cm is not None else "72 cells: refused")})
             continue
         fixed = not G.has_var(mod)
@@ -178,7 +178,7 @@ pub fn %s() {
     return {
         "harnesses": hs,
         "groups": {"main": {"features": ["c02"], "timeout_s": 1800},
-                   "msm": {"features": ["c02"], "est_gb": 6, "timeout_s": 2400},
+                   "msm": {"features": ["c02"], "est_gb": 10, "mem_gb": 20, "timeout_s": 3000},
                    "big": {"features": ["c02"], "est_gb": 12, "timeout_s": 2400, "unwindset": [["try_from_fn_erased", 392]], "mem_gb": 26, "max_jobs": 2},
                    "stub": {"features": ["c02"], "est_gb": 10, "timeout_s": 1800, "unwindset": [["try_from_fn_erased", 392]], "mem_gb": 26, "max_jobs": 2, "kani_args": ["-Z", "stubbing"]}},
         "level": "model_checking",
